@@ -626,7 +626,7 @@ def roundtrip_jobs(ir_path, tier, solver_ms):
                 continue  # outside the bound: the 10^k chain (see "outside")
             for grouping in (0, 1):
                 for lo, hi in digit_ranges(ty, base):
-                    if base == 2 and bits == 64 and lo < 0 and -hi >= (1 << (24 if tier == "quick" else 40)):
+                    if base == 2 and bits == 64 and lo < 0 and lo != hi and -hi >= (1 << (24 if tier == "quick" else 40)):
                         continue  # negative 64-bit binary beyond 24 (quick) / 40 (thorough) digits: minutes per query
                     jobs.append((job_roundtrip, (ir_path, ty, base, grouping, lo, hi, solver_ms)))
     return jobs
